@@ -196,6 +196,7 @@ func (s *JavaFullListener) EnterInterfaceBodyDeclaration(ctx *parser.InterfaceBo
 }
 
 func (s *JavaFullListener) EnterInterfaceMethodDeclaration(ctx *parser.InterfaceMethodDeclarationContext) {
+	resetMethodScope()
 	bodyDecl := ctx.InterfaceCommonBodyDeclaration().(*parser.InterfaceCommonBodyDeclarationContext)
 	name := bodyDecl.Identifier().GetText()
 	typeType := bodyDecl.TypeTypeOrVoid().GetText()
@@ -284,7 +285,13 @@ func (s *JavaFullListener) EnterAnnotation(ctx *parser.AnnotationContext) {
 	}
 }
 
+func resetMethodScope() {
+	localVars = make(map[string]string)
+	formalParameters = make(map[string]string)
+}
+
 func (s *JavaFullListener) EnterConstructorDeclaration(ctx *parser.ConstructorDeclarationContext) {
+	resetMethodScope()
 	name := ctx.Identifier().GetText()
 	position := BuildPosition(ctx.BaseParserRuleContext, name)
 
@@ -312,6 +319,7 @@ func (s *JavaFullListener) ExitConstructorDeclaration(ctx *parser.ConstructorDec
 }
 
 func (s *JavaFullListener) EnterMethodDeclaration(ctx *parser.MethodDeclarationContext) {
+	resetMethodScope()
 	name := ""
 
 	if ctx.Identifier() != nil {
